@@ -11,6 +11,13 @@ TRUSTED = [
     "the specification oracle in lean/Driver/C08.lean (textbook multiset / sequence / first-deviation / consumed-unit "
     "semantics, written without the model) judges the implementation's own observations",
     "the failure-message extractor translate/extract_mockmsgs.py (first lines of MockFailure.cpp), regenerating Gen/MockMessages.lean",
+    "the token-structure translator translate/extract_mocklists.py (list primitives of MockExpectedCallsList.cpp, loop-free queries and "
+    "state changes of MockExpectedCall.cpp -> Gen/MockLists.lean); its table of C++ query names -> model terms and the representation "
+    "of a pruned list node as cand = false are trusted, the generated definitions are proved equal to the model functions "
+    "(Proofs/MockGen.lean) and the model is run against the code, so a wrong translation shows up as a broken proof or a disagreement",
+    "the harness' reduction of the failure text to canonical `hist` lines (emit_history / canonical_entry in harness/h_c08.cpp): "
+    "section headers, one line per listed expectation (name, object, order window, parameter names, output names, ignore flag, "
+    "expected and actual count), the MISSING-parameters names; parameter values and type names inside the text are dropped",
     "parameter values: the matching model compares the normal form paramKey (all six integer types = the integer they "
     "denote, C09's denote?); param_equal_iff_same_integer (Props/C08.lean, from C09's equals_int_iff over the regenerated "
     "Gen/MockEquals.equalsGen) proves that this is MockNamedValue::equals for integers; the oracle compares the decimal "
@@ -37,7 +44,7 @@ RULE = ("scenarios = 0-8 expectations over <=3 function names, <=3 parameter nam
         "parameter names, late strictOrder: model comparison only unless the oracle finds them inside the hypothesis), "
         "plugin (2-5 scripted tests per case run in a private TestRegistry with the real MockSupportPlugin, no checkExpectations / "
         "clear of their own, some failing by a plain FAIL before / inside / after the scenario; verdict per test from the run), "
-        "malformed; a dedicated family of small cases walks through every ordered pair of the six integer types with values "
+        "malformed; every failing scenario of the direct mode also shows the expectation history of its failure text (hist lines); a dedicated family of small cases walks through every ordered pair of the six integer types with values "
         "from the boundary lattice that are equal, or congruent modulo 2^32 / 2^64 but different as integers; non-trivial = at least one expectation and one call; distinct = distinct op sequences")
 
 FUNCS = ["f0", "f1", "f2"]
@@ -488,8 +495,8 @@ def generate(rng, tier):
 
 
 def translate(ctx):
-    from translate import extract_mockmsgs, extract_mockplugin
-    return (extract_mockmsgs.run() or []) + (extract_mockplugin.run() or [])
+    from translate import extract_mockmsgs, extract_mockplugin, extract_mocklists
+    return (extract_mockmsgs.run() or []) + (extract_mockplugin.run() or []) + (extract_mocklists.run() or [])
 
 
 def nontrivial(r):
@@ -525,6 +532,22 @@ def observe(r, rep):
             rep.count("obs.out." + ("untouched" if l.endswith("ee" * 8) else "written"))
         elif l.startswith("left "):
             rep.count("obs." + l.replace(" ", "."))
+        elif l.startswith("hist "):
+            w = l.split()
+            if w[1].endswith("-section"):
+                rep.count("history.section." + w[1][0] + (".all" if w[2] == "*" else ".related"))
+            elif w[1] == "m":
+                rep.count("history.missing_names." + ("none" if w[2] == "-" else str(len(w[2].split(",")))))
+            elif len(w) == 3 and w[2] == "none":
+                rep.count("history.entry." + w[1] + ".none")
+            elif w[2].startswith("?"):
+                rep.count("history.entry.unreadable")
+            else:
+                rep.count("history.entry." + w[1])
+                if w[4] != "w:-":
+                    rep.count("history.entry.with_order_window")
+                if "::" in w[2]:
+                    rep.count("history.entry.scoped")
     if not failed:
         rep.count("verdict.pass")
     if tag == "plugin":
@@ -597,7 +620,28 @@ LEVEL_TEXT = ("Machine-checked Lean 4 theorems (lean/CppUModel/Props/C08.lean) o
               "the code on every run by a differential harness over generated scenarios (real mock()/mock(scope) API, recording "
               "reporter, ASan/UBSan); the implementation's own observations (verdict, first line of the failure, returned values, "
               "output bytes, expectedCallsLeft) are judged by an independent textbook oracle in the plain and in the "
-              "ignoreOtherParameters class; the failure-message table is regenerated from MockFailure.cpp.")
+              "ignoreOtherParameters class; the failure-message table is regenerated from MockFailure.cpp. "
+              "Failure text beyond the first line (direct mode): the expectation history - sections WERE NOT fulfilled / WERE fulfilled "
+              "(all expectations of the mock and its scopes, or those related to the function, or only the out-of-order ones, depending "
+              "on the failure constructor) and the MISSING-parameters section with the candidates of the call - is modelled "
+              "(Model/MockText.lean), observed as canonical `hist` lines and compared on every failing scenario; the oracle demands "
+              "that the sections list exactly the declared expectations (of the function) with their expected count and the number of "
+              "calls that consumed them, unfulfilled ones first, that the MISSING section lists the expectations with capacity that "
+              "accept every step of the call, and that the out-of-order failure lists the expectations of strict scopes called at "
+              "another position than declared. Theorems: history_partition, unfulfilled_section_exact, "
+              "unfulfilled_failure_iff_section_nonempty, related_history_is_about_the_function, afterCalls_refines_consume, "
+              "end_of_test_history_is_unconsumed_capacity (after any sequence of fulfilled calls the history of the end-of-test "
+              "failure is the history of the abstract consumption state, every class, any length). Regenerated on every run and "
+              "proved equal to the model (Gen/MockLists.lean, source_primitives_are_the_model + 28 gen_* obligations): every "
+              "pruning loop of MockExpectedCallsList (onlyKeep*, with or without the reset of dropped candidates), the first-match "
+              "searches, the has* queries, the for-each setters, amountOfActualCallsFulfilledFor, the section selection of "
+              "(un)fulfilledCallsToString, and isFulfilled / canMatchActualCalls / isMatchingActualCall(AndFinalized) / relatesTo / "
+              "relatesToObject / hasInputParameter / hasOutputParameter / callWasMade (order window) / resetActualCallMatchingState "
+              "of MockCheckedExpectedCall; of MockSupport the strict-order window arithmetic of expectNCalls, the pre-increment of "
+              "createActualCall and the condition of callIsIgnored (gen_expectN_strict, gen_startCall_routing), the statement order "
+              "of actualCall and checkExpectations (gen_statement_order); the source's composition of checkInputParameter / "
+              "checkOutputParameter from the regenerated primitives equals the model's (gen_checkInput_pipeline, "
+              "gen_checkOutput_pipeline, gen_callCheck_succeed).")
 LEVEL_NOTE = ("Trusted: Lean kernel; the hand-written model (validated against the code by the correspondence of this run, "
               "including enable/disable, clear, ambiguous sets and malformed calls, which the theorems do not cover); the oracle's "
               "reading of the property; the message extractor. The run theorems are stated for one MockSupport object (the "
@@ -605,6 +649,12 @@ LEVEL_NOTE = ("Trusted: Lean kernel; the hand-written model (validated against t
               "checkExpectations_over_scopes / expectedCallsLeft_over_scopes and otherwise by correspondence. Diagnosis and "
               "output-byte theorems are for the plain class; for ignoreOtherParameters the diagnosis is judged by the oracle "
               "only. Not carried by theorems: ambiguous sets, enable/disable; equality of non-integer parameter values (strings, "
-              "pointers, buffers) is C09's subject and enters here only through the correspondence.")
+              "pointers, buffers) is C09's subject and enters here only through the correspondence. The failure history is modelled "
+              "up to parameter values and type names (dropped by the canonical form); the ACTUAL-parameter tail and the object "
+              "address line of the text are not observed; in plugin mode only the first lines are compared. The control flow of "
+              "MockCheckedActualCall / MockSupport (which primitive is called when) stays hand-modelled (correspondence); only the "
+              "primitives themselves are regenerated. Not covered at all: tracing, the data store, custom comparators / copiers, "
+              "doubles, the return-value reader families (C09), MockSupport::crashOnFailure. See coverage/C08.md.")
 TECHNIQUE = ("Lean 4 invariant / refinement-to-multiset proofs over an executable model + differential correspondence harness "
-             "+ independent specification oracle + regenerated failure-message table")
+             "+ independent specification oracle + regenerated failure-message table + list primitives and expectation predicates "
+             "regenerated from their token structure and proved equal to the model")
